@@ -1072,6 +1072,31 @@ fn emit_setop(ids: &mut Ids, out: &mut Out, op: &str, imp: &str, a: &str, b: &st
                         out.ev("ShLookup", json!({"sid": sid, "reader": "seek", "kind": "file", "h": ids.h(&f.metadata.file_hash), "res": res, "rec": rec}));
                     }
                     let cas = si.read_all_cas_blocks_full(&mut Cursor::new(&bytes)).unwrap_or_default();
+                    // ... every xorb through the xorb lookup table of the result
+                    for c in cas.iter() {
+                        let h = c.metadata.cas_hash;
+                        let r = guarded(|| -> Result<Option<MDBCASInfo>, String> {
+                            let mut cur = short(&bytes);
+                            let mut dest = [0u32; 8];
+                            let n = si.get_cas_info_index_by_hash(&mut cur, &h, &mut dest).map_err(|e| format!("{e:?}"))?;
+                            for idx in dest.iter().take(n) {
+                                cur.seek(SeekFrom::Start(si.metadata.cas_info_offset + 48 * (*idx as u64))).map_err(|e| format!("{e:?}"))?;
+                                if let Some(c2) = MDBCASInfo::deserialize(&mut cur).map_err(|e| format!("{e:?}"))? {
+                                    if c2.metadata.cas_hash == h {
+                                        return Ok(Some(c2));
+                                    }
+                                }
+                            }
+                            Ok(None)
+                        });
+                        let (res, rec) = match r {
+                            Ok(Ok(Some(c2))) => ("hit".to_string(), cas_json(ids, &c2)),
+                            Ok(Ok(None)) => ("none".to_string(), json!({})),
+                            Ok(Err(e)) => (if e.contains("TruncatedHashCollision") { "collision_error".to_string() } else { format!("err {e}") }, json!({})),
+                            Err(p) => (format!("panic {p}"), json!({})),
+                        };
+                        out.ev("ShLookup", json!({"sid": sid, "reader": "seek", "kind": "xorb", "h": ids.h(&h), "res": res, "rec": rec}));
+                    }
                     for c in cas.iter() {
                         if c.chunks.is_empty() {
                             continue;
@@ -1220,7 +1245,44 @@ fn run_consolidate(rng: &mut Rng_, ids: &mut Ids, out: &mut Out, n: usize) {
                     let name_ok = exists && compute_data_hash(&bytes) == s.shard_hash
                         && mdb_shard::utils::parse_shard_filename(&s.path) == Some(s.shard_hash);
                     let l = listing(ids, &bytes).unwrap_or(json!({"files": [], "xorbs": []}));
-                    returned.push(json!({"exists": exists, "name_ok": name_ok, "files": l["files"], "xorbs": l["xorbs"]}));
+                    // the records of a returned shard are found through its own lookup tables (where it has them: an
+                    // input written without tables that is returned as it is has none)
+                    let lookup_ok = guarded(|| -> Result<bool, String> {
+                        let mut cur = Cursor::new(&bytes);
+                        let si = MDBShardInfo::load_from_reader(&mut cur).map_err(|e| format!("{e:?}"))?;
+                        let mut ok = true;
+                        if si.metadata.cas_lookup_num_entry > 0 {
+                            for c in si.read_all_cas_blocks_full(&mut cur).map_err(|e| format!("{e:?}"))? {
+                                let mut dest = [0u32; 8];
+                                // (more records share the 64-bit prefix than a lookup returns: reported as an error)
+                                let n = match si.get_cas_info_index_by_hash(&mut cur, &c.metadata.cas_hash, &mut dest) {
+                                    Ok(n) => n,
+                                    Err(e) if format!("{e:?}").contains("TruncatedHashCollision") => continue,
+                                    Err(e) => return Err(format!("{e:?}")),
+                                };
+                                let mut found = false;
+                                for idx in dest.iter().take(n) {
+                                    cur.seek(SeekFrom::Start(si.metadata.cas_info_offset + 48 * (*idx as u64))).map_err(|e| format!("{e:?}"))?;
+                                    if let Some(c2) = MDBCASInfo::deserialize(&mut cur).map_err(|e| format!("{e:?}"))? {
+                                        found |= c2.metadata.cas_hash == c.metadata.cas_hash && c2.chunks.len() == c.chunks.len();
+                                    }
+                                }
+                                ok &= found || n == 8;
+                            }
+                        }
+                        if si.metadata.file_lookup_num_entry > 0 {
+                            for f in si.read_all_file_info_sections(&mut cur).map_err(|e| format!("{e:?}"))? {
+                                match si.get_file_reconstruction_info(&mut cur, &f.metadata.file_hash) {
+                                    Ok(Some(fi)) => ok &= fi.metadata.file_hash == f.metadata.file_hash && fi.segments.len() == f.segments.len(),
+                                    Ok(None) => ok = false,
+                                    Err(e) => ok &= format!("{e:?}").contains("TruncatedHashCollision"),
+                                }
+                            }
+                        }
+                        Ok(ok)
+                    });
+                    let lookup_ok = matches!(lookup_ok, Ok(Ok(true)));
+                    returned.push(json!({"exists": exists, "name_ok": name_ok, "files": l["files"], "xorbs": l["xorbs"], "lookup_ok": lookup_ok}));
                 }
                 let mut remaining = vec![];
                 let mut others = 0;
